@@ -48,6 +48,12 @@ PROGRAMS = {
                       lambda i: [b'MOVE %d a' % (i + 1), b'SELECT a',
                                  b'MOVE * INBOX'],
                       lambda i: []),
+    # ... with a flag change in between (the file is renamed, its key stays)
+    'MOVE-out-flag-back': (lambda i: [b'SELECT INBOX'],
+                           lambda i: [b'MOVE %d a' % (i + 1), b'SELECT a',
+                                      b'STORE * +FLAGS (\\Flagged)',
+                                      b'MOVE * INBOX'],
+                           lambda i: []),
     # a maildir folder made by another program: no dovecot-uidlist yet
     'APPEND-raw': (lambda i: [], lambda i: [b'APPEND raw ' +
                                             mt.lit(mt.body('r%d' % i))],
@@ -62,6 +68,7 @@ EXTRA_PAIRS = [('APPEND', 'CHECK'), ('COPY', 'CHECK'), ('MOVE', 'CHECK'),
                ('MOVE-self', 'MOVE-self'), ('MOVE-self', 'NOOP'),
                ('MOVE-self', 'SELECT'), ('MOVE-out-back', 'NOOP'),
                ('MOVE-out-back', 'SELECT'), ('MOVE-out-back', 'CHECK'),
+               ('MOVE-out-flag-back', 'NOOP'), ('MOVE-out-flag-back', 'SELECT'),
                ('APPEND-raw', 'APPEND-raw'), ('APPEND-raw', 'SELECT-raw'),
                ('SELECT-raw', 'SELECT-raw')]
 
